@@ -13,6 +13,13 @@ type Ext struct {
 	B64     []*Obj64
 	outs64  map[int]bool
 	Buckets []uint32
+
+	// bit-sliced indexes (opsbsi.go)
+	BSI64   []*ObjBSI64
+	BSI32   []*ObjBSI32
+	outsBSI map[int]bool // outputs of the current step (family offset + slot)
+	qBSI    map[int]bool // indexes the current step only queried
+	BCols   []uint64     // column-id cluster bases of this history (generation only)
 }
 
 func newExt(w *World) *Ext {
@@ -20,6 +27,7 @@ func newExt(w *World) *Ext {
 	for i := 0; i < numB64; i++ {
 		x.B64 = append(x.B64, &Obj64{BM: roaring64.New(), M: model.NewSet64(), Prov: "new"})
 	}
+	x.initBSI()
 	return x
 }
 
@@ -47,4 +55,7 @@ func (x *Ext) dropRegion(ri int) {
 	}
 }
 
-func (x *Ext) afterStep(tag string) { x.after64(tag) }
+func (x *Ext) afterStep(tag string) {
+	x.after64(tag)
+	x.afterBSI(tag)
+}
